@@ -7,13 +7,28 @@
  *   desk <hex>    bus_desktop_file_load on a file with exactly these bytes, then
  *                 bus_desktop_file_get_string for Name, Exec, User in [D-BUS Service]
  *                 -> ok N=<hex|~> E=<hex|~> U=<hex|~> | err
+ *   cache <flags> <op>*   the bus's service-file cache (bus/activation.c is compiled INTO this harness, so its static
+ *                 functions and tables are reachable) on real directories d0..dk below a scratch root;
+ *                 flags = one character per configured directory, '1' = BUS_SERVICE_DIR_FLAGS_STRICT_NAMING
+ *                   W.<d>.<filehex>.<mtime>.<contenthex>   write the file, set its mtime
+ *                   R.<d>.<filehex>                        remove the file
+ *                   X.<d> / M.<d>                          remove / recreate the directory
+ *                   L                                      first: bus_activation_new, later: bus_activation_reload
+ *                   F.<namehex>                            activation_find_entry
+ *                 -> one token per L / F:  <found|none|->/<table>/<readdir order of every directory at that moment>
+ *                    entry = name:exec:user:systemd:mtime:dir:file (hex, ~ = absent), table sorted, entries joined by ';',
+ *                    order = d0 files joined by ',' | d1 files ... ('!' = cannot be opened)
  */
 #include "common.h"
 #include <unistd.h>
+#include <dirent.h>
+#include <fcntl.h>
+#include <sys/stat.h>
 #include <dbus/dbus-shell.h>
 #include "desktop-file.h"
+#include "activation.c"
 
-#define MAXTOK 8
+#define MAXTOK 4096
 static char tmp_path[256];
 
 static void do_shell (const char *h)
@@ -92,11 +107,211 @@ static void do_desk (const char *h)
   bus_desktop_file_free (df);
 }
 
+/* ------------------------------------------------------------------ service-file cache */
+#define MAXDIRS 4
+#define MTIME_BASE 1000000000L
+static BusContext *the_context;
+static char root[256];
+static int ncase;
+
+static BusContext *get_context (void)
+{
+  char conf[300];
+  FILE *f;
+  DBusString cs;
+  DBusError error;
+  if (the_context != NULL) return the_context;
+  snprintf (conf, sizeof conf, "%s.conf", root);
+  f = fopen (conf, "w");
+  fprintf (f, "<!DOCTYPE busconfig PUBLIC \"-//freedesktop//DTD D-Bus Bus Configuration 1.0//EN\" "
+              "\"http://www.freedesktop.org/standards/dbus/1.0/busconfig.dtd\">\n<busconfig><type>session</type>"
+              "<listen>unix:tmpdir=/tmp</listen><policy context=\"default\"><allow send_destination=\"*\"/><allow own=\"*\"/></policy></busconfig>\n");
+  fclose (f);
+  dbus_error_init (&error);
+  _dbus_string_init_const (&cs, conf);
+  the_context = bus_context_new (&cs, BUS_CONTEXT_FLAG_FORK_NEVER | BUS_CONTEXT_FLAG_SYSLOG_NEVER, NULL, NULL, NULL, &error);
+  unlink (conf);
+  if (the_context == NULL) { fprintf (stderr, "cannot create a BusContext: %s\n", error.message); exit (3); }
+  return the_context;
+}
+
+static void hexcat (char *out, size_t cap, const char *s)
+{
+  size_t l = strlen (out), i, n = s ? strlen (s) : 0;
+  if (s == NULL) { strncat (out, "~", cap - l - 1); return; }
+  if (n == 0) { strncat (out, "-", cap - l - 1); return; }
+  for (i = 0; i < n && l + 3 < cap; i++, l += 2) sprintf (out + l, "%02x", (unsigned char) s[i]);
+}
+
+static int dir_index (BusActivation *a, BusServiceDirectory *sd)
+{
+  DBusList *link; int i = 0;
+  for (link = _dbus_list_get_first_link (&a->directories); link != NULL; link = _dbus_list_get_next_link (&a->directories, link), i++)
+    if (link->data == sd) return i;
+  return -1;
+}
+
+static void show_entry (BusActivation *a, BusActivationEntry *e, char *out, size_t cap)
+{
+  char num[64];
+  out[0] = 0;
+  hexcat (out, cap, e->name); strncat (out, ":", cap - strlen (out) - 1);
+  hexcat (out, cap, e->exec); strncat (out, ":", cap - strlen (out) - 1);
+  hexcat (out, cap, e->user); strncat (out, ":", cap - strlen (out) - 1);
+  hexcat (out, cap, e->systemd_service);
+  snprintf (num, sizeof num, ":%ld:%d:", (long) e->mtime - MTIME_BASE, dir_index (a, e->s_dir));
+  strncat (out, num, cap - strlen (out) - 1);
+  hexcat (out, cap, e->filename);
+}
+
+static int cmpstr (const void *a, const void *b) { return strcmp (*(char * const *) a, *(char * const *) b); }
+
+static void show_table (BusActivation *a)
+{
+  DBusHashIter iter;
+  char *rows[4096]; int n = 0, i;
+  _dbus_hash_iter_init (a->entries, &iter);
+  while (_dbus_hash_iter_next (&iter) && n < 4096)
+    {
+      char *buf = malloc (1 << 16);
+      show_entry (a, _dbus_hash_iter_get_value (&iter), buf, 1 << 16);
+      rows[n++] = buf;
+    }
+  qsort (rows, (size_t) n, sizeof rows[0], cmpstr);
+  if (n == 0) fputs ("-", stdout);
+  for (i = 0; i < n; i++) { if (i) fputs (";", stdout); fputs (rows[i], stdout); free (rows[i]); }
+}
+
+static void show_order (int ndirs)
+{
+  int d;
+  for (d = 0; d < ndirs; d++)
+    {
+      char path[400]; DIR *dir; struct dirent *ent; int first = 1;
+      snprintf (path, sizeof path, "%s/c%d/d%d", root, ncase, d);
+      if (d) fputs ("|", stdout);
+      dir = opendir (path);
+      if (dir == NULL) { fputs ("!", stdout); continue; }
+      while ((ent = readdir (dir)) != NULL)
+        {
+          if (strcmp (ent->d_name, ".") == 0 || strcmp (ent->d_name, "..") == 0) continue;
+          if (!first) fputs (",", stdout);
+          first = 0;
+          puthex ((const unsigned char *) ent->d_name, (int) strlen (ent->d_name));
+        }
+      if (first) fputs ("-", stdout);
+      closedir (dir);
+    }
+}
+
+static void rm_rf_dir (const char *path)
+{
+  DIR *dir = opendir (path); struct dirent *ent;
+  if (dir == NULL) return;
+  while ((ent = readdir (dir)) != NULL)
+    {
+      char p[700];
+      if (strcmp (ent->d_name, ".") == 0 || strcmp (ent->d_name, "..") == 0) continue;
+      snprintf (p, sizeof p, "%s/%s", path, ent->d_name);
+      unlink (p);
+    }
+  closedir (dir);
+  rmdir (path);
+}
+
+static void do_cache (char **tok, int n)
+{
+  const char *flags = tok[1];
+  int ndirs = (int) strlen (flags), d, i, started = 0, outputs = 0;
+  BusConfigServiceDir configs[MAXDIRS];
+  char paths[MAXDIRS][400];
+  DBusList *directories = NULL;
+  BusActivation *activation = NULL;
+  DBusString address;
+  char casedir[300];
+  if (ndirs > MAXDIRS) { printf ("?too-many-dirs\n"); return; }
+  ncase++;
+  snprintf (casedir, sizeof casedir, "%s/c%d", root, ncase);
+  mkdir (root, 0700);
+  mkdir (casedir, 0700);
+  _dbus_string_init_const (&address, "");
+  for (d = 0; d < ndirs; d++)
+    {
+      snprintf (paths[d], sizeof paths[d], "%s/d%d", casedir, d);
+      mkdir (paths[d], 0700);
+      configs[d].path = paths[d];
+      configs[d].flags = flags[d] == '1' ? BUS_SERVICE_DIR_FLAGS_STRICT_NAMING : BUS_SERVICE_DIR_FLAGS_NONE;
+      _dbus_list_append (&directories, &configs[d]);
+    }
+  for (i = 2; i < n; i++)
+    {
+      char *op = tok[i];
+      char *f[6]; int nf = 0; char *p = op;
+      while (nf < 6) { f[nf++] = p; p = strchr (p, '.'); if (p == NULL) break; *p++ = 0; }
+      if (op[0] == 'W' && nf == 5)
+        {
+          int fl, cl; unsigned char *fn = unhex (f[2], &fl), *content = unhex (f[4], &cl);
+          char path[800]; FILE *fp; struct timespec ts[2];
+          snprintf (path, sizeof path, "%s/%s", paths[atoi (f[1])], (char *) fn);
+          fp = fopen (path, "wb");
+          if (fp != NULL) { if (cl > 0) fwrite (content, 1, (size_t) cl, fp); fclose (fp); }
+          ts[0].tv_sec = ts[1].tv_sec = MTIME_BASE + atol (f[3]); ts[0].tv_nsec = ts[1].tv_nsec = 0;
+          utimensat (AT_FDCWD, path, ts, 0);
+          free (fn); free (content);
+        }
+      else if (op[0] == 'R' && nf == 3)
+        {
+          int fl; unsigned char *fn = unhex (f[2], &fl); char path[800];
+          snprintf (path, sizeof path, "%s/%s", paths[atoi (f[1])], (char *) fn);
+          unlink (path);
+          free (fn);
+        }
+      else if (op[0] == 'X' && nf == 2) rm_rf_dir (paths[atoi (f[1])]);
+      else if (op[0] == 'M' && nf == 2) mkdir (paths[atoi (f[1])], 0700);
+      else if (op[0] == 'L' && nf == 1)
+        {
+          DBusError error; dbus_error_init (&error);
+          if (!started)
+            {
+              activation = bus_activation_new (get_context (), &address, &directories, &error);
+              started = 1;
+            }
+          else if (!bus_activation_reload (activation, &address, &directories, &error))
+            fputs ("?reload-failed", stdout);
+          if (activation == NULL) { printf ("?new-failed\n"); dbus_error_free (&error); goto done; }
+          if (outputs++) fputs (" ", stdout);
+          fputs ("-/", stdout); show_table (activation); fputs ("/", stdout); show_order (ndirs);
+        }
+      else if (op[0] == 'F' && nf == 2 && activation != NULL)
+        {
+          int nl; unsigned char *name = unhex (f[1], &nl);
+          DBusError error; BusActivationEntry *e; char buf[1 << 16];
+          dbus_error_init (&error);
+          if (outputs++) fputs (" ", stdout);
+          /* the order is what the lookup is about to see */
+          e = activation_find_entry (activation, (const char *) name, &error);
+          if (e != NULL) { show_entry (activation, e, buf, sizeof buf); fputs (buf, stdout); }
+          else { fputs (dbus_error_has_name (&error, DBUS_ERROR_SERVICE_UNKNOWN) ? "none" : "?error", stdout); dbus_error_free (&error); }
+          fputs ("/", stdout); show_table (activation); fputs ("/", stdout); show_order (ndirs);
+          free (name);
+        }
+      else { if (outputs++) fputs (" ", stdout); fputs ("?bad-op", stdout); }
+    }
+  if (!outputs) fputs ("-", stdout);
+  fputs ("\n", stdout);
+done:
+  if (activation != NULL) bus_activation_unref (activation);
+  _dbus_list_clear (&directories);
+  for (d = 0; d < ndirs; d++) rm_rf_dir (paths[d]);
+  rmdir (casedir);
+}
+
 int main (void)
 {
   static char line[1 << 20];
   static char *tok[MAXTOK];
   snprintf (tmp_path, sizeof tmp_path, "/tmp/verif_act_%ld.service", (long) getpid ());
+  snprintf (root, sizeof root, "/tmp/verif_actc_%ld", (long) getpid ());
   while (fgets (line, sizeof line, stdin) != NULL)
     {
       int n = 0; char *p = strtok (line, " \n");
@@ -104,9 +319,11 @@ int main (void)
       if (n == 0) { printf ("\n"); continue; }
       if (strcmp (tok[0], "shell") == 0 && n == 2) do_shell (tok[1]);
       else if (strcmp (tok[0], "desk") == 0 && n == 2) do_desk (tok[1]);
+      else if (strcmp (tok[0], "cache") == 0 && n >= 2) do_cache (tok, n);
       else printf ("?unknown-command\n");
       fflush (stdout);
     }
   unlink (tmp_path);
+  rmdir (root);
   return 0;
 }
